@@ -130,6 +130,8 @@ structure Env where
   verdict  : Verdict := .valid            -- outcome of `forward_broadcast_payload`
   auth     : AuthOutcome := .failure      -- outcome of `authenticate`
   directOk : Option Bool := some true     -- `send_private_payload`: some valid? / none = call failed
+  down     : Bool := false                -- the modulator link is lost during this step: every call fails, `operations()` and
+                                          -- `protocol_name()` included (only the flags cached at start-up, `authRequired`, survive)
 deriving Repr
 
 inductive AclAction | add | remove
@@ -249,6 +251,10 @@ def paginateAcl (l : List Str) (page size : Option Nat) : List Str Ã— Option (Na
     ((if start < l.length then (l.take stop).drop start else []), some (pg, sz, l.length))
   | _, _ => (l, none)
 
+/-- `Notifier::notify` fails before anything is routed: the modulator refuses the forwarded event, or cannot even be
+    asked which operations it offers -/
+def notifyFails (s : Srv) (env : Env) : Bool := (s.cfg.fwdEvent && !env.evOk) || (s.cfg.hasMod && env.down)
+
 /-! ## disconnect clean-up -/
 
 /-- channel `c` after `remove_member(u)`: owner cleared if it was `u`, reader cache rebuilt -/
@@ -270,7 +276,7 @@ def removeMember (s : Srv) (c : Chan) (u : Str) (env : Env) : Srv Ã— List Emit Ã
   if (withoutMember s.cfg.domain c u).members.isEmpty then
     ({ s with index := indexDel s u c.handler, chans := delChan s.chans c.handler }, [], true)
   else if c.owner = some u then
-    if s.cfg.fwdEvent && !env.evOk then
+    if notifyFails s env then
       ({ s with index := indexDel s u c.handler,
                 chans := putChan s.chans { withoutMember s.cfg.domain c u with owner := some (pickOwner env (withoutMember s.cfg.domain c u) u) } },
         [], false)
@@ -291,7 +297,7 @@ def leaveOne (u : Str) (env : Env) (acc : Srv Ã— List Emit) (h : Str) : Srv Ã— L
   | some c =>
     if u âˆˆ c.members then
       ((removeMember acc.1 c u env).1,
-        acc.2 ++ (if acc.1.cfg.fwdEvent && !env.evOk then [] else leftEvents acc.1 c u none) ++ (removeMember acc.1 c u env).2.1)
+        acc.2 ++ (if notifyFails acc.1 env then [] else leftEvents acc.1 c u none) ++ (removeMember acc.1 c u env).2.1)
     else acc
 
 /-- `leave_all_channels` for the last connection of `u` -/
@@ -380,7 +386,7 @@ def doJoin (s : Srv) (k : Nat) (u : Str) (id : Nat) (chanRaw : Str) (obRaw : Opt
   | .error (i, r) => fail s k i r env
   | .ok (h, m) =>
     -- a failed notification rolls the join back and the request fails as a whole
-    if s.cfg.fwdEvent && !env.evOk then fail s k none .internalServerError env
+    if notifyFails s env then fail s k none .internalServerError env
     else (joinedState s h m, joinedEvents s k h m ++ [{ conn := k, frame := .joinAck id chanRaw }])
 
 /-- who is to be removed (a foreign NID is never a member) -/
@@ -421,12 +427,13 @@ def doLeave (s : Srv) (k : Nat) (u : Str) (id : Nat) (chanRaw : Str) (obRaw : Op
   match leaveCheck s u id chanRaw obRaw with
   | .error (i, r) => fail s k i r env
   | .ok (c, m) =>
-    if s.cfg.fwdEvent && !env.evOk then fail s k none .internalServerError env
+    if notifyFails s env then fail s k none .internalServerError env
     else leaveTail s k id c m env
 
 /-- what the modulator lets through: the payload to deliver -/
 def payloadGate (s : Srv) (p : Payload) (env : Env) : Except Reason Payload :=
   if s.cfg.hasMod then
+    if env.down then .error .internalServerError else
     match env.verdict with
     | .valid => .ok p
     | .altered p' => .ok p'
@@ -598,6 +605,7 @@ def doSetConfig (s : Srv) (k : Nat) (u : Str) (id : Nat) (chanRaw : Str) (mc mp 
 def modDirectCheck (s : Srv) (id : Option Nat) (p : Payload) (env : Env) : Except Refusal Nat :=
   if p.length > s.cfg.maxPayload then .error (id, .policyViolation)
   else if !s.cfg.hasMod then .error (none, .unexpectedMessage)
+  else if env.down then .error (none, .internalServerError)
   else if !s.cfg.sendPrivate then .error (none, .unexpectedMessage)
   else match id with
     | none => .error (none, .badRequest)
@@ -645,6 +653,7 @@ def connectingStep (s : Srv) (k : Nat) (r : Req) (env : Env) : Srv Ã— List Emit 
   match r with
   | .connect v hb =>
     if v â‰  1 then fail s k none .unsupportedProtocolVersion env
+    else if s.cfg.hasMod && env.down then fail s k none .internalServerError env     -- `protocol_name()` fails
     else
       (setPhase s k .connected,
         [{ conn := k, frame := .connectAck s.cfg.authRequired s.cfg.appProtocol (clampHb s.cfg hb)
@@ -662,6 +671,7 @@ def connectedStep (s : Srv) (k : Nat) (r : Req) (env : Env) : Srv Ã— List Emit :
         else (register s k u, [{ conn := k, frame := .identifyAck (fullNid s u) }])
   | .auth _ =>
     if !s.cfg.authRequired then fail s k none .unexpectedMessage env
+    else if env.down then fail s k none .internalServerError env
     else match env.auth with
       | .success u =>
         if u.isEmpty || !Id.validNidParts u s.cfg.domain then fail s k none .internalServerError env
